@@ -71,7 +71,9 @@ UNDERLYING = {                       # normal entry -> the uniform entry whose n
 }
 
 
-def mode_structure(tier, seed):
+def mode_structure(tier, seed, part='structure'):
+    """part='structure': everything that does not depend on the accuracy of the normal quantile;
+    part='quantile': the sub-checks that compare NORMAL_* draws with the true standard-normal quantile."""
     from scipy.stats import norm
     from biogeme.native_draws import native_random_number_generators as cat
     fails, cases = [], 0
@@ -115,7 +117,7 @@ def mode_structure(tier, seed):
                     unit = out['UNIFORM' + key[len('UNIFORMSYM'):]]
                     if not np.allclose(x, 2.0 * unit - 1.0, rtol=0, atol=1e-15):
                         bad('symmetric = 2u-1 of the unit scheme (same seed)', key, n, r)
-                if key in UNDERLYING:
+                if key in UNDERLYING and part == 'quantile':
                     u = out[UNDERLYING[key]]
                     want = norm.ppf(u)
                     dev = np.abs(x - want) / np.maximum(1.0, np.abs(want))
@@ -123,7 +125,7 @@ def mode_structure(tier, seed):
                         i = int(np.argmax(dev))
                         bad('normal = standard normal quantile of the underlying uniform scheme', key, n, r,
                             u=float(u.flat[i]), got=float(x.flat[i]), want=float(want.flat[i]))
-                if 'MLHS' in key:
+                if 'MLHS' in key and (part == 'quantile') == key.startswith('NORMAL'):
                     y = x[:, :h] if key.endswith('_ANTI') else x
                     if key.startswith('UNIFORMSYM'):
                         y = (y + 1.0) / 2.0
@@ -140,6 +142,10 @@ def mode_structure(tier, seed):
                     if r * n >= 2 and np.array_equal(out[f'{fam}_HALTON{b1}'], out[f'{fam}_HALTON{b2}']):
                         bad('different bases yield different sequences', f'{fam}_HALTON{b1} vs {fam}_HALTON{b2}', n, r)
     return cases, fails
+
+
+def mode_structure_quantile(tier, seed):
+    return mode_structure(tier, seed, part='quantile')
 
 
 def grid(tier):
